@@ -97,7 +97,8 @@ class Ctx:
     # ---------------------------------------------------------------- build
     def build(self, cmds, race=False, tags="verif"):
         """go build harness commands against /repo's current working tree."""
-        ensure_harness_mod()
+        hdir = os.path.join(self.work, "harness")
+        ensure_harness_mod(hdir)
         os.makedirs(self.bin, exist_ok=True)
         outs = {}
         for c in cmds:
@@ -106,7 +107,7 @@ class Ctx:
             if race:
                 args.append("-race")
             args += ["-o", out, "./cmd/" + c]
-            p = sh(args, cwd=HARNESS, env=goenv(), check=False, timeout=1200)
+            p = sh(args, cwd=hdir, env=goenv(), check=False, timeout=1200)
             if p.returncode != 0:
                 raise Inconclusive("harness build failed for %s:\n%s" % (c, p.stdout[-6000:]))
             outs[c] = out
@@ -255,14 +256,15 @@ def load_known_findings(prop=None):
     return ents
 
 
-def ensure_harness_mod():
-    """go.sum is copied from /repo (offline: no sumdb), go.mod replace points at REPO."""
-    gm = os.path.join(HARNESS, "go.mod")
-    want = open(os.path.join(HARNESS, "go.mod.tmpl")).read().replace("@REPO@", REPO)
-    if not os.path.exists(gm) or open(gm).read() != want:
-        with open(gm, "w") as fh:
-            fh.write(want)
-    shutil.copy(os.path.join(REPO, "go.sum"), os.path.join(HARNESS, "go.sum"))
+def ensure_harness_mod(dst):
+    """Copy the harness sources to dst (scratch) and point its go.mod at REPO (so that checks run against
+    VERIF_REPO=<other tree> do not disturb each other); go.sum is copied from the repo (offline: no sumdb)."""
+    if os.path.exists(dst):
+        shutil.rmtree(dst)
+    shutil.copytree(HARNESS, dst, ignore=shutil.ignore_patterns("go.mod", "go.sum", "bin"))
+    with open(os.path.join(dst, "go.mod"), "w") as fh:
+        fh.write(open(os.path.join(HARNESS, "go.mod.tmpl")).read().replace("@REPO@", REPO))
+    shutil.copy(os.path.join(REPO, "go.sum"), os.path.join(dst, "go.sum"))
 
 
 def ndjson(recs):
